@@ -65,14 +65,67 @@ type ParseObs struct {
 	Err    error
 	Panic  any
 	Stderr string // non-empty: the parser recovered an internal panic
+	// filled when BoundParse is on
+	LexCalls  int64  // token requests of the grammar driver
+	LexStates int64  // lexer state transitions
+	NonTerm   string // non-empty: a logical work bound was exceeded and the parse was aborted
+}
+
+// BoundParse makes Parse count the parser's work in logical steps (lexer hook)
+// and abort a parse that exceeds what any terminating parse of a text of that
+// length can need: the grammar driver requests at most one token per byte plus
+// end-of-input, and every lexer state transition consumes input, emits a token
+// or is one of a constant number of dispatch hops. The bounds are several
+// times that. Single-goroutine use only (the counters are not synchronised).
+var BoundParse bool
+
+// LexBoundExceeded is the sentinel panic raised by the lexer hook.
+type LexBoundExceeded struct {
+	Kind         int
+	Count, Bound int64
+}
+
+func lexBounds(n int) (calls, states int64) {
+	return int64(4*n + 64), int64(16*n + 256)
 }
 
 // Parse calls the real parser under observation.
 func Parse(name, text string) (o ParseObs) {
 	Init()
 	watchStderr()
+	if BoundParse {
+		bc, bs := lexBounds(len(text))
+		parser.VerifLexHook = func(kind, n int) {
+			if n != len(text) {
+				return // a nested parse of another text
+			}
+			if kind == 0 {
+				o.LexCalls++
+				if o.LexCalls > bc {
+					if o.NonTerm == "" {
+						o.NonTerm = fmt.Sprintf("the grammar driver requested %d tokens from a text of %d bytes (bound %d)", o.LexCalls, n, bc)
+					}
+					panic(LexBoundExceeded{0, o.LexCalls, bc})
+				}
+				return
+			}
+			o.LexStates++
+			if o.LexStates > bs {
+				if o.NonTerm == "" {
+					o.NonTerm = fmt.Sprintf("the lexer made %d state transitions on a text of %d bytes (bound %d)", o.LexStates, n, bs)
+				}
+				panic(LexBoundExceeded{1, o.LexStates, bs})
+			}
+		}
+		defer func() { parser.VerifLexHook = nil }()
+	}
 	func() {
-		defer func() { o.Panic = recover() }()
+		defer func() {
+			o.Panic = recover()
+			if _, ok := o.Panic.(LexBoundExceeded); ok {
+				o.Panic = nil
+			}
+		}()
 		o.Stmts, o.Err = parser.ParsePipeline(name, text)
 	}()
 	o.Stderr = stderrDelta()
@@ -140,6 +193,18 @@ type LexItem struct {
 func LexAll(text string, max int) (items []LexItem, pan any) {
 	Init()
 	defer func() { pan = recover() }()
+	if BoundParse {
+		_, bs := lexBounds(len(text))
+		var states int64
+		parser.VerifLexHook = func(kind, n int) {
+			if kind == 1 {
+				if states++; states > bs {
+					panic(LexBoundExceeded{1, states, bs})
+				}
+			}
+		}
+		defer func() { parser.VerifLexHook = nil }()
+	}
 	l := parser.Lex(text)
 	var it parser.Item
 	for len(items) < max {
